@@ -204,7 +204,7 @@ func TestC03_NonceOrder(t *testing.T) {
 					if seen[txn.Hash] {
 						replayRejected++
 					}
-				} else if _, exists := before.Bal[from]; exists && txn.TransactionType == transaction.TxnTypeSend && txn.ToClientID != from && len(txn.ToClientID) == 64 &&
+				} else if _, exists := before.Bal[from]; exists && txn.TransactionType == transaction.TxnTypeSend && txn.ToClientID != from && isLowerHex64(txn.ToClientID) &&
 					uint64(txn.Value) <= before.Bal[from] && uint64(txn.Fee) <= before.Bal[from]-uint64(txn.Value) && uint64(txn.Value) <= uint64(config.MaxTokenSupply) {
 					return viol("C03", "in-order-send-rejected", h, "a plain send with the next nonce %d and sufficient funds was rejected: %v", txn.Nonce, o.Err)
 				}
@@ -393,4 +393,18 @@ func TestC05_NoOverdrawNoWrap(t *testing.T) {
 			st.Sample(nt, h.Render(25))
 		}
 	})
+}
+
+// isLowerHex64: the canonical spelling of an account id.
+func isLowerHex64(s string) bool {
+	if len(s) != 64 {
+		return false
+	}
+	for i := 0; i < len(s); i++ {
+		c := s[i]
+		if !(c >= '0' && c <= '9' || c >= 'a' && c <= 'f') {
+			return false
+		}
+	}
+	return true
 }
